@@ -110,6 +110,18 @@ impl Feig {
         Ok(this)
     }
 
+    /// Snapshot of the open transactions (token, receipt-number).
+    #[cfg(feature = "zvt_verif")]
+    pub fn verif_open_transactions(&self) -> Vec<(String, usize)> {
+        let mut out: Vec<_> = self
+            .transactions
+            .iter()
+            .map(|(k, v)| (k.clone(), *v))
+            .collect();
+        out.sort();
+        out
+    }
+
     /// Returns the system information of the feig-terminal.
     async fn get_system_info(
         &mut self,
